@@ -502,7 +502,8 @@ def f3(ctx, fx):
             ctx.finding("C10.F3", P, "json-disclosures", "the JSON envelope's disclosure list is edited in place (retain/sort/push …) instead of being replaced by the selected list: its order or content can "
                         "differ from the Compact form and from the sequence the KB-JWT's sd_hash covers", line=w["line"])
         elif w["value"] is not None and must(w["value"], lambda x: x.kind == "field" and x.d.get("name") == "hs_disclosures") and not may(w["value"], lambda x: x.kind == "call" and x.d["term"].get("name") in
-                                                                                                                               ("filter", "rev", "skip", "take", "sort", "dedup", "retain", "filter_map", "step_by")):
+                                                                                                                               ("filter", "rev", "skip", "take", "sort", "dedup", "retain", "filter_map", "step_by")
+                                                                                                                               and not (x.d["term"].get("callee") or x.d["term"].get("resolved") or "").startswith(("std::mem::take", "core::mem::take"))):
             ctx.ok("C10.F3", P, "json-disclosures", "the JSON envelope's `disclosures` is a copy of hs_disclosures", line=w["line"])
         else:
             ctx.finding("C10.F3", P, "json-disclosures", "the JSON envelope's `disclosures` is not a plain copy of the selected list hs_disclosures: %s" % (vstr(w["value"], 4) if w["value"] is not None else w["how"]), line=w["line"])
